@@ -83,7 +83,7 @@ def _mutating_before(I, g, call_gid, ci):
             continue
         if m.kind == "STORE" and m["path"][0][0] in ("L", "M"):
             continue
-        if m.gid == call_gid or call_gid in g.reachable_from(m.gid):
+        if m.gid == call_gid or call_gid in I.reachable_from(m.gid):
             out.append(m)
     return out
 
@@ -234,7 +234,7 @@ def r_lenlower(ctx):
                 continue
             st = ls[0]
             # the store dominates every return
-            idom = I.g.dominators()
+            idom = I.dominators()
             if not all(I.g.dominates(idom, st.gid, r.gid) for r in rets):
                 res.fail(cpath, role, "the length is not lowered on every path through the constructor", span=span_of_effect(st))
                 continue
